@@ -97,7 +97,9 @@ func (u *vfUpstream) ServeHTTP(rw http.ResponseWriter, r *http.Request) {
 		}
 	}
 	if err := w.sched.yieldDone(r.Context(), "upstream", r.Method+" "+vfTrunc(r.RequestURI, 60), r.Context().Done()); err != nil {
-		return
+		// abandoned (replica crashed / client gone): drop the connection without an answer - returning normally
+		// would make net/http send an empty 200, racing with the client's cancellation
+		panic(http.ErrAbortHandler)
 	}
 	w.up.mu.Lock()
 	w.up.hits = append(w.up.hits, h)
